@@ -9,6 +9,10 @@
 //!       P <ns|-> <locale index> <locale> <key.path> <idx:hex,idx:hex,...>     (its literal strings in index_strings order)
 //!       T <ns|-> <locale index> <locale> <hex,hex,...>                        (Locale.strings of the top locale)
 //!       END <dir>
+//!   total   : property C09 (pipeline never panics), macro side; every stage under catch_unwind:
+//!       P <ok | err <Variant> <Display text> | PANIC <msg>>      parse_locales(false, dir)   (parser with the `quote` feature)
+//!       G <ok <token stream length> | err <Variant> <Display> | PANIC <msg> | skip>   load_locales() (only after P ok)
+//!   depth   : the same two calls WITHOUT catch_unwind, for child processes (a stack overflow aborts, it does not unwind)
 //!   codegen : the macro crate's code generator, compiled from its source files, run in-process with
 //!       CARGO_MANIFEST_DIR pointing at the project: `C ok <token stream text>` | `C err <Variant>` | `C PANIC`
 #![allow(dead_code, unused_imports, clippy::all)]
@@ -138,9 +142,67 @@ fn run_codegen(dir: &str) -> Vec<u8> {
     buf
 }
 
+fn panic_msg(p: Box<dyn std::any::Any + Send>) -> String {
+    p.downcast_ref::<String>().cloned().or_else(|| p.downcast_ref::<&str>().map(|s| s.to_string())).unwrap_or_default()
+}
+
+fn run_total(dir: &str, o: &mut dyn Write) {
+    let d = dir.to_string();
+    let p = std::panic::catch_unwind(move || parse_locales(false, Some(std::path::PathBuf::from(&d))).map(|_| ()));
+    let ok = match p {
+        Err(e) => {
+            writeln!(o, "P\tPANIC\t{}", one_line(&panic_msg(e))).unwrap();
+            false
+        }
+        Ok(Err(e)) => {
+            writeln!(o, "P\terr\t{}\t{}", variant_name(&format!("{:?}", e)), one_line(&e.to_string().replace(dir, "$DIR"))).unwrap();
+            false
+        }
+        Ok(Ok(())) => {
+            writeln!(o, "P\tok").unwrap();
+            true
+        }
+    };
+    if !ok {
+        writeln!(o, "G\tskip").unwrap();
+        return;
+    }
+    std::env::set_var("CARGO_MANIFEST_DIR", dir);
+    match std::panic::catch_unwind(|| load_locales::load_locales().map(|ts| ts.to_string().len())) {
+        Err(e) => writeln!(o, "G\tPANIC\t{}", one_line(&panic_msg(e))).unwrap(),
+        Ok(Err(e)) => writeln!(o, "G\terr\t{}\t{}", variant_name(&format!("{:?}", e)), one_line(&e.to_string().replace(dir, "$DIR"))).unwrap(),
+        Ok(Ok(n)) => writeln!(o, "G\tok\t{}", n).unwrap(),
+    }
+}
+
 fn main() {
-    std::panic::set_hook(Box::new(|_| {}));
     let mode = std::env::args().nth(1).unwrap_or_default();
+    if mode == "depth" || mode == "total" {
+        if mode == "total" {
+            std::panic::set_hook(Box::new(|_| {}));
+        }
+        let stdin = std::io::stdin();
+        let mut o = std::io::BufWriter::new(std::io::stdout().lock());
+        for line in stdin.lock().lines() {
+            let dir = line.unwrap();
+            if mode == "total" {
+                run_total(&dir, &mut o);
+            } else {
+                let r = parse_locales(false, Some(std::path::PathBuf::from(&dir)));
+                writeln!(o, "P\t{}", if r.is_ok() { "ok" } else { "err" }).unwrap();
+                o.flush().unwrap();
+                if r.is_ok() {
+                    std::env::set_var("CARGO_MANIFEST_DIR", &dir);
+                    let g = load_locales::load_locales();
+                    writeln!(o, "G\t{}", if g.is_ok() { "ok" } else { "err" }).unwrap();
+                }
+            }
+            writeln!(o, "END\t{}", dir).unwrap();
+            o.flush().unwrap();
+        }
+        return;
+    }
+    std::panic::set_hook(Box::new(|_| {}));
     let stdin = std::io::stdin();
     let mut o = std::io::BufWriter::new(std::io::stdout().lock());
     for line in stdin.lock().lines() {
